@@ -69,14 +69,19 @@ theorem toDec_ne_of_letter (n : Nat) (s : Str) (c : Char) (r : Str) (hs : s = c 
   injection h with h1 _
   subst h1; rw [hd] at hc; cases hc
 
+/-- no word of the generated `ALTERNATE_URI_STR` starts with a digit -/
+theorem altUriStr_heads : ∀ p ∈ Gen.C09.altUriStr, (p.1.head?.map isAsciiDigit) = some false := by decide
+
 theorem altTypeOfStr_toDec (n : Nat) : altTypeOfStr (toDec n) = none := by
-  unfold altTypeOfStr
-  have a1 := toDec_ne_of_letter n "seg".toList 's' _ rfl (by decide)
-  have a2 := toDec_ne_of_letter n "off".toList 'o' _ rfl (by decide)
-  have a3 := toDec_ne_of_letter n "v".toList 'v' _ rfl (by decide)
-  have a4 := toDec_ne_of_letter n "t".toList 't' _ rfl (by decide)
-  have a5 := toDec_ne_of_letter n "seq".toList 's' _ rfl (by decide)
-  simp only [a1, a2, a3, a4, a5, if_false]
+  obtain ⟨c, r, e, hd⟩ := toDec_head n
+  have hnone : (Gen.C09.altUriStr.find? fun p => p.1 == toDec n) = none := by
+    rw [List.find?_eq_none]
+    intro p hp hb
+    have h1 := altUriStr_heads p hp
+    have h2 : p.1 = toDec n := by simpa using hb
+    rw [h2, e] at h1
+    simp [hd] at h1
+  simp [altTypeOfStr, hnone]
 
 /-- the general path of `from_str`: `<decimal type>=<escaped value>` -/
 theorem fromStr_typed (t : Nat) (rest : Str) (bs : Bytes) (ht1 : 1 ≤ t) (ht2 : t ≤ 65535)
